@@ -470,9 +470,9 @@ CLI_JOBS = {
                  ('SPPS', ['-ff', 'martini3001', '-elastic', '-p', 'backbone']),
                  ('WPWWP', ['-ff', 'martini3001', '-noscfix', '-name', 'prot']),
                  ('PSPS', ['-ff', 'elnedyn22', '-noscfix', '-sep']),
-                 ('HPH', ['-ff', 'martini3001', '-dssp']),
+                 ('HPH', ['-ff', 'martini3001', '-p', 'backbone']),
                  ('PSP', ['-ff', 'martini3001', '-merge', 'A,B']),
-                 ('PPPP', ['-ff', 'martini22', '-nt']),
+                 ('PPPP', ['-ff', 'martini3001', '-nt', '-noscfix']),
                  ('SWS', ['-ff', 'martini3001', '-go', '-go-eps', '9.4']),
                  ('PSSP', ['-ff', 'martini3001', '-merge', 'B,C', '-elastic'])],
 }
@@ -505,6 +505,32 @@ def own_full(mol, name):
 
 # ----------------------------------------------------------------------------------------------------------------
 
+def minimise_random(sc, why, rounds=8):
+    """Shrink a random-system scenario: drop molecules one at a time while TLC still gives the same verdict on the files
+    the real code writes for the smaller system; then drop the palette entries no longer used."""
+    for _ in range(rounds):
+        if len(sc['seq']) <= 1:
+            break
+        events = []
+        for i in range(len(sc['seq'])):
+            cand = dict(sc, seq=sc['seq'][:i] + sc['seq'][i + 1:])
+            try:
+                e = run_random_scenario(cand)
+            except Exception:
+                continue
+            e['scenario'] = {'random': cand}
+            events.append(e)
+        if not events:
+            break
+        verdicts, _ = judge_events(events)
+        keep = [e for e, v in zip(events, verdicts) if v == why]
+        if not keep:
+            break
+        sc = keep[0]['scenario']['random']
+    used = sorted(set(sc['seq']))
+    return dict(sc, palette=[sc['palette'][i] for i in used], seq=[used.index(i) for i in sc['seq']])
+
+
 def verdict_loop(events, verdicts, ev, vd, label):
     """Violations for judged events; smallest scenarios first."""
     failed = [(e, v) for e, v in zip(events, verdicts) if v != 'ok']
@@ -513,7 +539,16 @@ def verdict_loop(events, verdicts, ev, vd, label):
     for e, v in failed:
         per_why.setdefault(v, []).append(e)
     for v, lst in per_why.items():
-        for e in lst[:2]:
+        for k, e in enumerate(lst[:2]):
+            if k == 0 and 'random' in e['scenario']:
+                try:
+                    small = minimise_random(e['scenario']['random'], v)
+                    e2 = run_random_scenario(small)
+                    e2['scenario'] = {'random': small}
+                    if judge_events([e2])[0][0] == v:
+                        e = e2
+                except (tlc.MachineryError, Exception):
+                    pass
             vd.violation('files-disagree', dict(e['scenario'], why=v, names=e['names'], top=e['top'],
                                                 files=e.get('files')),
                          '%s: TLC verdict on the real files: %s (%d runs with this verdict)' % (label, v, len(lst)))
